@@ -56,6 +56,16 @@ pub fn gen(out: &mut Out, _sub: &str) {
             let sel = c21::selection(&mut rng, kk, kind == "lkm");
             sels.push(json!({"has_partial": sel.is_some(), "partial_raw": sel.unwrap_or_default()}));
         }
+        // systematic part: every check alone (scheduling of the analyses each single check needs) and
+        // every check paired with one random other check, spread over the first inputs of the run
+        let pool: Vec<&str> = if kind == "lkm" { c21::LKM_MODULES.to_vec() } else { cli::ALL_MODULES.to_vec() };
+        for (j, m) in pool.iter().enumerate() {
+            if j as u64 % n.min(4) == i % n.min(4) {
+                sels.push(json!({"has_partial": true, "partial_raw": m}));
+                let other = *rng.pick(&pool);
+                sels.push(json!({"has_partial": true, "partial_raw": format!("{},{}", other, m)}));
+            }
+        }
         inputs.push(json!({"ev": "reset", "gen_seed": rng.next(), "kind": kind, "dir": dir, "id": format!("c22_{}", i), "selections": sels}));
     }
     let cases = crate::par::map(inputs, 8, |inp| exec_case(&inp));
